@@ -165,8 +165,40 @@ func checkMain(args []string) int {
 		}
 	}
 	nLemmas := 0
+	// lemmas of this property, plus (transitively) every lemma they use
+	want := map[string]bool{}
 	for _, l := range e.specs.Lemmas {
 		if !l.Axiom && hasProp(l.Props, id) {
+			want[l.Name] = true
+		}
+	}
+	for _, fc := range fcs {
+		if fc.c != nil {
+			for _, n := range strings.Fields(fc.c.Opts["axioms"]) {
+				want[n] = true
+			}
+		}
+	}
+	for changed := true; changed; {
+		changed = false
+		for _, l := range e.specs.Lemmas {
+			if l.Axiom || !want[l.Name] {
+				continue
+			}
+			for _, u := range l.Using {
+				if !want[u] {
+					for _, l2 := range e.specs.Lemmas {
+						if l2.Name == u && !l2.Axiom {
+							want[u] = true
+							changed = true
+						}
+					}
+				}
+			}
+		}
+	}
+	for _, l := range e.specs.Lemmas {
+		if !l.Axiom && want[l.Name] {
 			fc := e.VerifyLemma(l, axioms)
 			fcs = append(fcs, fc)
 			obs = append(obs, fc.obligs...)
@@ -191,6 +223,27 @@ func checkMain(args []string) int {
 	}
 	SolveFns(fcs, extra, work, timeout, thorough)
 
+	// a lemma proved "using" another lemma stands only if that lemma is itself discharged in this run
+	lemmaOK := map[string]bool{}
+	for _, o := range obs {
+		if o.Lemma != nil {
+			lemmaOK[o.Lemma.Name] = okResult(o)
+		}
+	}
+	for _, o := range obs {
+		if o.Lemma == nil || !okResult(o) {
+			continue
+		}
+		for _, u := range o.Lemma.Using {
+			for _, l2 := range e.specs.Lemmas {
+				if l2.Name == u && !l2.Axiom {
+					if ok, seen := lemmaOK[u]; !seen || !ok {
+						o.result.Status = "depends-on-undischarged-lemma:" + u
+					}
+				}
+			}
+		}
+	}
 	// ---- triage
 	var records []obRecord
 	var samples []interface{}
